@@ -95,6 +95,15 @@ def validate_events(rep, wd, events, what, max_rounds=6):
                           {"kind": "select", "event": bad},
                           "create_pow_context(%s, height %d (header version %d), %d bits) + verify says %s on a %s cycle" % (
                               bad["chain"], bad["height"], bad["version"], bad["eb"], bad["verdict"], bad["cycle_of"]))
+        elif bad["k"] == "SelectKind":
+            rep.violation("cuckoo:select_kind:%s:v%d:eb%d:built_%s" % (bad["chain"], bad["version"], bad["eb"], bad["observed"]),
+                          {"kind": "selectkind", "event": bad},
+                          "create_pow_context(%s, height %d (header version %d), %d bits) builds a verifier behaving like '%s' on %d probe tuples; the definition for that header is another" % (
+                              bad["chain"], bad["height"], bad["version"], bad["eb"], bad["observed"], bad["probes"]))
+        elif bad["k"] == "Weight":
+            rep.violation("cuckoo:graph_weight:%s:eb=%d:%s" % (bad["chain"], bad["eb"], weight_phase(bad)),
+                          {"kind": "weight", "event": bad},
+                          "consensus::graph_weight(%d, %d) = %d on %s is not GraphWeight" % (bad["height"], bad["eb"], bad["weight"], bad["chain"]))
         elif bad["k"] == "Verify":
             sig = "cuckoo:%s:%s:real_%s_spec_disagrees" % (bad["variant"], bad.get("kind", "case"), bad["verdict"])
             rep.violation(sig, {"kind": "tuple", "variant": bad["variant"], "eb": bad["eb"], "seed": bad["seed"],
@@ -107,6 +116,13 @@ def validate_events(rep, wd, events, what, max_rounds=6):
         if rounds >= max_rounds:
             break
     return n_ok, states
+
+
+def weight_phase(e):
+    year, week = 52 * 10080, 10080
+    if e["eb"] != 31:
+        return "plain"
+    return "c31_before_expiry" if e["height"] < year else ("c31_phasing_out" if e["height"] < year + 30 * week else "c31_expired")
 
 
 def negative_forms(g, cyc, rng):
@@ -292,14 +308,36 @@ def run_replay(rep, wd, replay):
     case = obj["case"]
     if case.get("kind") == "select":
         outp = os.path.join(wd, "replay_select.ndjson")
-        vlib.harness(["cuckoo", "select", "--out", outp, "--seed", obj.get("seed", 1)], timeout=300)
         ev = case["event"]
-        same = [e for e in vlib.read_ndjson(outp) if all(e[k] == ev[k] for k in ("chain", "version", "eb", "cycle_of"))]
+        vlib.harness(["cuckoo", "boundary" if ev.get("src") == "boundary" else "select", "--out", outp, "--seed", obj.get("seed", 1)], timeout=300)
+        same = [e for e in vlib.read_ndjson(outp) if e["k"] == "Select" and all(e[k] == ev[k] for k in ("chain", "version", "eb", "cycle_of", "seed"))]
         p = os.path.join(wd, "replay_select_trace.ndjson")
         vlib.write_ndjson(p, same)
         idx, _ = validate_trace(p, "replay")
         if idx is not None:
             rep.violation(obj["signature"], case, "selection event rejected")
+    elif case.get("kind") == "selectkind":
+        outp = os.path.join(wd, "replay_boundary.ndjson")
+        vlib.harness(["cuckoo", "boundary", "--out", outp, "--seed", obj.get("seed", 1)], timeout=300)
+        ev = case["event"]
+        same = [e for e in vlib.read_ndjson(outp) if e["k"] == "SelectKind" and all(e[k] == ev[k] for k in ("chain", "version", "eb"))]
+        if any(e["observed"] == "ambiguous" for e in same):
+            raise ToolError("boundary probes do not tell the five verifiers apart")
+        p = os.path.join(wd, "replay_boundary_trace.ndjson")
+        vlib.write_ndjson(p, same)
+        idx, _ = validate_trace(p, "replay")
+        if idx is not None:
+            rep.violation(obj["signature"], case, "the verifier built is not the one of the header's definition")
+    elif case.get("kind") == "weight":
+        outp = os.path.join(wd, "replay_ser.ndjson")
+        vlib.harness(["cuckoo", "ser", "--out", outp, "--seed", obj.get("seed", 1)])
+        ev = case["event"]
+        same = [e for e in vlib.read_ndjson(outp) if e["k"] == "Weight" and all(e[k] == ev[k] for k in ("chain", "eb", "height"))]
+        p = os.path.join(wd, "replay_weight_trace.ndjson")
+        vlib.write_ndjson(p, same)
+        idx, _ = validate_trace(p, "replay")
+        if idx is not None:
+            rep.violation(obj["signature"], case, "graph_weight differs from GraphWeight")
     elif case.get("kind") == "pack":
         p = os.path.join(wd, "replay_pack.ndjson")
         vlib.write_ndjson(p, [case["event"]])
@@ -450,12 +488,12 @@ def run(tier, replay):
             g5sp = os.path.join(wd, "graphs5_sample.ndjson")
             vlib.write_ndjson(g5sp, rest)
             x5s = os.path.join(wd, "exhaust5s.ndjson")
-            vlib.harness(["cuckoo", "exhaust", "--graphs", g5sp, "--out", x5s, "--threads", 4, "--sample", 300000, "--seed", seed, "--max-hangs", 2], timeout=1500)
+            vlib.harness(["cuckoo", "exhaust", "--graphs", g5sp, "--out", x5s, "--threads", 4, "--sample", 120000, "--seed", seed, "--max-hangs", 2], timeout=1500)
             with open(x5p, "a") as f:
                 f.write(open(x5s).read())
     else:
         full5 = set()
-        ex5 = hjson(vlib.harness(["cuckoo", "exhaust", "--graphs", g5p, "--out", x5p, "--threads", 4, "--sample", 60000, "--seed", seed, "--max-hangs", 2], timeout=900))
+        ex5 = hjson(vlib.harness(["cuckoo", "exhaust", "--graphs", g5p, "--out", x5p, "--threads", 4, "--sample", 120000, "--seed", seed, "--max-hangs", 2], timeout=900))
     results = vlib.read_ndjson(x4p) + vlib.read_ndjson(x5p)
 
     calls = 0
@@ -511,6 +549,15 @@ def run(tier, replay):
     for g in graphs4[::3]:
         for _ in range(6):
             case_list.append({"variant": g["variant"], "eb": g["eb"], "seed": g["seed"], "nonces": sorted(rng.sample(range(g["N"]), g["K"])), "kind": "random_subset"})
+    # near misses of the verifiers' bucketing of edge ends by low node bits: K-cycles of the graph with node
+    # numbers cut to those bits (graphs of 32..128 edges: more nodes than buckets); TLC decides each one
+    twp = os.path.join(wd, "twins.ndjson")
+    twins = hjson(vlib.harness(["cuckoo", "twins", "--out", twp, "--seed", seed, "--ebs", "5,6,7,8" if thorough else "5,6,7",
+                                "--per", 4 if thorough else 2, "--limit", 24], timeout=600))
+    twin_cases = vlib.read_ndjson(twp)
+    if len(twin_cases) < 100:
+        raise ToolError("too few bucket-twin tuples (%d)" % len(twin_cases))
+    case_list += twin_cases
     cp = os.path.join(wd, "cases.ndjson")
     vlib.write_ndjson(cp, case_list)
     cop = os.path.join(wd, "cases_out.ndjson")
@@ -553,6 +600,20 @@ def run(tier, replay):
         raise ToolError("selection table: too few cases (%d)" % len(sel_events))
     events += sel_events
 
+    # the edge-bits boundary of that selection on the long-lived networks: the repository's published
+    # 42-cycles at 19 and 29 bits through create_pow_context at every header version (variant-specific
+    # verdicts), and at 19, 28, 29, 30, 31 bits which verifier is built (differential probes)
+    bdp = os.path.join(wd, "boundary.ndjson")
+    bnd = hjson(vlib.harness(["cuckoo", "boundary", "--out", bdp, "--seed", seed], timeout=600))
+    bnd_events = vlib.read_ndjson(bdp)
+    if any(e["k"] == "SelectKind" and e["observed"] == "ambiguous" for e in bnd_events):
+        raise ToolError("boundary probes do not tell the five verifiers apart: %s" % bnd)
+    n_kind = sum(1 for e in bnd_events if e["k"] == "SelectKind")
+    n_vec = sum(1 for e in bnd_events if e["k"] == "Select")
+    if n_kind < 75 or n_vec < 40 or bnd["vectors_through_header"] < 5:
+        raise ToolError("boundary stage: too few events: %s" % bnd)
+    events += bnd_events
+
     # Proof packing / padding / difficulty (secondary clause)
     sp = os.path.join(wd, "pack.ndjson")
     ser = hjson(vlib.harness(["cuckoo", "ser", "--out", sp, "--seed", seed, "--reps", 6 if thorough else 4]))
@@ -594,12 +655,24 @@ def run(tier, replay):
     # ... and a refused wrong-length genuine cycle reported as accepted (verify_size events)
     wl = next(e for e in vs_events if e["shape"] == "cycle" and e["gof"] == e["sv"] and e["L"] not in (e["P"], 1) and e["verdict"] == "reject")
     bad4 = dict(wl, verdict="accept")
-    for i, b in enumerate((bad1, bad2, bad3, bad4)):
+    # ... a verifier kind other than the built one, a published cycle's verdict flipped, a weight off by one
+    sk = next(e for e in bnd_events if e["k"] == "SelectKind" and e["chain"] == "mainnet" and e["eb"] == 29 and e["version"] == 2)
+    bad5 = dict(sk, observed="cuckatoo")
+    sv29 = next(e for e in bnd_events if e["k"] == "Select" and e["eb"] == 29 and e["cycle_of"] == "cuckatoo" and e["version"] == 1)
+    bad6 = dict(sv29, verdict="accept")
+    wt = next(e for e in events if e["k"] == "Weight" and e["eb"] == 31 and e["chain"] == "mainnet" and 52 * 10080 <= e["height"] < 82 * 10080)
+    bad7 = dict(wt, weight=wt["weight"] + 256)
+    def selftest(ib):
+        i, b = ib
         p = os.path.join(wd, "selftest_%d.ndjson" % i)
         vlib.write_ndjson(p, [good, pk, b])
         idx, _ = validate_trace(p, "selftest")
-        if idx != 3:
-            raise ToolError("selftest %d: a corrupted record was not refused by CuckooTrace (binding is vacuous)" % i)
+        return i, idx
+    from concurrent.futures import ThreadPoolExecutor
+    with ThreadPoolExecutor(max_workers=3) as ex:          # seven short single-worker TLC runs
+        for i, idx in ex.map(selftest, list(enumerate((bad1, bad2, bad3, bad4, bad5, bad6, bad7)))):
+            if idx != 3:
+                raise ToolError("selftest %d: a corrupted record was not refused by CuckooTrace (binding is vacuous)" % i)
 
     n_valid, tstates = validate_events(rep, wd, events, "all")
     vs_thread.join()
@@ -637,6 +710,12 @@ def run(tier, replay):
                         "by_shape_and_verdict": {"%s:%s" % k: v for k, v in sorted(__import__("collections").Counter((e["shape"], e["verdict"]) for e in vs_events).items())},
                         "sample": {k: v for k, v in wl.items() if k != "ends_by"}},
         "explicit_tuples": len(case_res), "direction_b": rec, "selection_table": sel, "verify_events_by_kind": kinds,
+        "selection_boundary": dict(bnd, select_kind_events=n_kind, published_vector_events=n_vec,
+                                   by_observed={k: sum(1 for e in bnd_events if e["k"] == "SelectKind" and e["observed"] == k) for k in VARIANTS + ["none"]},
+                                   published_accepts=sum(1 for e in bnd_events if e["k"] == "Select" and e["verdict"] == "accept")),
+        "bucket_twins": twins,
+        "graph_weight": {"cases": ser["weight_cases"], "events_decided_by_tlc": sum(1 for e in events if e["k"] == "Weight"),
+                         "c31_phasing_out_events": sum(1 for e in events if e["k"] == "Weight" and weight_phase(e) == "c31_phasing_out")},
         "proof_ser": {k: ser[k] for k in ("events", "pack_checks", "padding_cases", "difficulty_cases")},
         "hangs_observed": len(hang_list), "hangs_confirmed_12s": confirmed_hangs, "panics_observed": len(panic_list),
         "pin_checks": pin["checks"],
@@ -648,6 +727,7 @@ def run(tier, replay):
         "verify_size on Mainnet/Testnet headers above 29 edge bits (cuckatoo) only with nonce lists that need no cycle search (2^30-edge graph); cuckatoo's wrong-length cycles go through verify_size on the AutomatedTesting/UserTesting chain types, same code",
         "the header version of a height is taken from consensus::header_version (its schedule is C04's subject)",
         "exhaustive iff on 16-edge graphs (and 32-edge graphs in the thorough tier); larger graphs through solver-found cycles and near misses only",
-        "blake2b, graph_weight used as primitives in the difficulty formula; nonces >= 2^31 are logged to TLC as 'out of range'",
+        "blake2b is a primitive of the difficulty formula; graph_weight is compared with GraphWeight (TLC for values below 2^31, the harness's transcription of GraphWeight beyond); nonces >= 2^31 are logged to TLC as 'out of range'",
+        "which verifier create_pow_context builds at 28..31 edge bits is observed through its behaviour on probe tuples compared with pow::new_*_ctx verifiers of the same binary (a verifier that differs from all five is reported as 'unknown'); genuine cycles through create_pow_context at 19/29 bits only for cuckatoo (refused), cuckaroo and cuckarood: the published cuckaroom/cuckarooz keys are not those of a header",
     ]
     return rep.finish()
